@@ -137,7 +137,12 @@ pub fn filters_from_convert_format<B: std::io::BufRead>(
             char4_buf[char4_len] = buf[offset + char4_len];
             char4_len += 1;
         }
-        let apid = Char4OrRegex::from_buf(&char4_buf).ok();
+        // "----" stands for any apid:
+        let apid = if char4_len > 0 {
+            Char4OrRegex::from_buf(&char4_buf).ok()
+        } else {
+            None
+        };
         offset += 5;
         let mut char4_buf = [0u8, 0, 0, 0];
         let mut char4_len = 0;
@@ -145,7 +150,12 @@ pub fn filters_from_convert_format<B: std::io::BufRead>(
             char4_buf[char4_len] = buf[offset + char4_len];
             char4_len += 1;
         }
-        let ctid = Char4OrRegex::from_buf(&char4_buf).ok();
+        // "----" stands for any ctid:
+        let ctid = if char4_len > 0 {
+            Char4OrRegex::from_buf(&char4_buf).ok()
+        } else {
+            None
+        };
         offset += 5;
         let mut f = Filter::new(FilterKind::Positive);
         f.apid = apid;
